@@ -20,6 +20,7 @@ THEOREMS = [
     "SleapVerif.C17.toposort_relabel",
     "SleapVerif.C17.bfs_relabel",
     "SleapVerif.C17.arbo_relabel",
+    "SleapVerif.C17.toposort_any_numbering_any_listing",
     "SleapVerif.C17.child_before_parent_drops_parent",
     "SleapVerif.C17.parent_first_needed",
 ]
